@@ -114,6 +114,9 @@ func subject(p *schema.Prog, line string) string {
 			return parts[0] + "|" + parts[2]
 		}
 	}
+	if p.Fam == "hist" && p.Hist != nil {
+		return "hist:" + p.Hist.Pattern() // the step names of the history; positions and observers are not part of the signature
+	}
 	if p.Fam == "const" || p.Fam == "module" {
 		if k := strings.Index(p.ID, "/"); k > 0 {
 			return p.ID[:k] // the creation order of mod:unnamed/<order> is not part of the signature
@@ -189,7 +192,11 @@ func evaluate(tabs *schema.Tables, p *schema.Prog, full bool) (o outcome) {
 	o.prog = p
 	var bt *schema.Built
 	cur := ""
-	if msg, pn := mbt.Guard(func() { bt = schema.BuildProgTracked(p, &cur) }); pn {
+	build := schema.BuildProgTracked
+	if p.Hist != nil {
+		build = schema.BuildHist // construct, then print / edit as the history says; the module after the history is judged
+	}
+	if msg, pn := mbt.Guard(func() { bt = build(p, &cur) }); pn {
 		if strings.Contains(msg, "spec gap") || strings.HasPrefix(msg, "schema:") {
 			o.discard = "harness: " + msg
 			return
@@ -461,7 +468,7 @@ func Run(tier, replay string) {
 		rep.Finish()
 	}
 
-	stages := os.Getenv("VERIF_C03_STAGES") // development aid: comma-separated subset of cover,exec,execsim,mix
+	stages := os.Getenv("VERIF_C03_STAGES") // development aid: comma-separated subset of cover,hist,exec,execsim,mix
 	on := func(s string) bool { return stages == "" || strings.Contains(","+stages+",", ","+s+",") }
 
 	// coverage family: exhaustive
@@ -476,6 +483,19 @@ func Run(tier, replay string) {
 			}
 		}
 		runAll(rep, &tabs, cover, all, st)
+	}
+
+	// histories (construct, print, edit, print): every single edit after every kind of observer,
+	// and seeded behaviours of up to three edits
+	if on("hist") {
+		h1 := tlcProgs(rep, mbt.TLCOpts{Cfg: "BuildHist.cfg"})
+		runAll(rep, &tabs, h1, all, st)
+		nHist := 60
+		if thorough {
+			nHist = 400
+		}
+		hr := tlcProgs(rep, mbt.TLCOpts{Cfg: "BuildHistSim.cfg", Simulate: fmt.Sprintf("num=%d", nHist), Depth: 5})
+		runAll(rep, &tabs, hr, all, st)
 	}
 
 	// executable integer programs: exhaustive at depth 1 over boundary constants
